@@ -78,7 +78,7 @@ func genC13(rt *rapid.T, tier string) any {
 		m := RandomTree(tx, r, rapid.IntRange(2, 4).Draw(rt, "maxdeg"), lenMode >= 1)
 		if rapid.IntRange(0, 2).Draw(rt, "rooted") == 0 {
 			all := m.all()
-			m = RootOnBranch(m, all[1+r.Intn(len(all)-1)])
+			m = rootAtRandom(m, all, r)
 		}
 		for _, x := range m.all() {
 			if lenMode == 1 && rapid.Bool().Draw(rt, "droplen") {
